@@ -235,3 +235,10 @@ def r4(ctx):
         ctx.check(got in (n_want1, n_want2), caller, "sensor count is columns / window size", role="call:num_data_series",
                   expected=str(n_want1), found=str(got))
     plumb(ctx, ["sparsity_weight", "window_size"])
+
+
+@rule("C12", "R5", "ORDER", "membership read by the statistics phase is current, also right after a repopulation event")
+def r5(ctx):
+    from . import c13, c08
+    c13.r2(ctx)    # assigning labels re-derives member_points immediately (full-equality skip condition only)
+    c08.r6(ctx)    # each refill is committed to the working state through the label setter
